@@ -256,6 +256,29 @@ func engExp(a []string) string {
 			return "tids -"
 		}
 		return "tids " + strings.Join(t, ",")
+	case "refresh":
+		// one pass of the UDP template refresher (sendRefreshedTemplates), called synchronously; the
+		// messages come out in Go map order and are reported sorted by their template id
+		t0 := time.Now().Unix()
+		err := expProc.VerifSendRefreshedTemplates()
+		t1 := time.Now().Unix()
+		ws := expConn.take()
+		tidOf := func(w []byte) int {
+			if len(w) >= 22 {
+				return int(w[20])<<8 | int(w[21])
+			}
+			return -1
+		}
+		sort.SliceStable(ws, func(i, j int) bool { return tidOf(ws[i]) < tidOf(ws[j]) })
+		w, timeOK := writesToken(ws, t0, t1)
+		tk := "timeok"
+		if !timeOK {
+			tk = "timebad"
+		}
+		if err != nil {
+			return fmt.Sprintf("err %s", w)
+		}
+		return fmt.Sprintf("ok %d %s %s", len(ws), w, tk)
 	case "send":
 		if len(a) != 5 {
 			return "bad-op"
